@@ -101,10 +101,15 @@ class LetFiller(Visitor):
     def visit_NamedQubit(self, qubit):
         """Visit a named qubit that may possibly have its index
         remapped. Doing so will change the name of the qubit."""
+        new_from = self.visit(qubit.alias_from)
         if isinstance(qubit.alias_index, Constant):
             new_index = self.resolve_constant(qubit.alias_index)
-            new_from = self.visit(qubit.alias_from)
             return new_from[new_index]
+        elif new_from is not qubit.alias_from:
+            # The register this qubit is taken from referred to a
+            # constant: take the qubit from the rebuilt register, so the
+            # index is checked against (and resolved through) the new one.
+            return NamedQubit(qubit.name, new_from, qubit.alias_index)
         else:
             return qubit
 
@@ -171,9 +176,11 @@ class RegisterVisitor(LetFiller):
     def visit_NamedQubit(self, qubit):
         """Visit a named qubit that may possibly have its index
         remapped. Doing so will change the name of the qubit."""
+        new_from = self.visit(qubit.alias_from)
         if isinstance(qubit.alias_index, Constant):
             new_index = self.resolve_constant(qubit.alias_index)
-            new_from = self.visit(qubit.alias_from)
             return NamedQubit(qubit.name, new_from, new_index)
+        elif new_from is not qubit.alias_from:
+            return NamedQubit(qubit.name, new_from, qubit.alias_index)
         else:
             return qubit
